@@ -386,7 +386,7 @@ func c06HistoryScenario(maxLen int, first int) mc.Scenario {
 			if i > 0 {
 				e = x.Choose(len(events), "event")
 			}
-			c := x.Choose(3, "collect")
+			c := x.Choose(3, "collect") // C06 keeps all three modes
 			hist = append(hist, fmt.Sprintf("%s collect=%d", events[e].name, c))
 			func() {
 				defer func() { recover() }()
